@@ -133,6 +133,10 @@ func runC14(c *an.Ctx) {
 					out = append(out, cl)
 				}
 			})
+			// ... or in a private helper the per-metadata closure was turned into
+			for _, hs := range helperCallsTo(cache, add) {
+				out = append(out, hs.inner)
+			}
 			return out
 		}() {
 			leaves := stringOrigins(call.Common().Args[0])
@@ -157,6 +161,13 @@ func runC14(c *an.Ctx) {
 					}
 				}
 			})
+			for _, hs := range helperCallsTo(cache, add) {
+				for _, a := range hs.effective {
+					if a != nil && (strings.TrimPrefix(an.Path(a), "local:") == strings.TrimPrefix(an.Path(st.Val), "local:") || a == st.Val) {
+						filled = true
+					}
+				}
+			}
 			c.Check("W1", "cache-is-the-walked-map@(*Fork).cacheParamFileMap", st.Pos(), filled, "fileParamMap must be the map that addFilesToArgsMappings filled")
 		}
 	}
@@ -876,4 +887,42 @@ func ruleW4(c *an.Ctx) {
 		})
 	}
 	c.Floor("W4", "final kill reports written in functions that report completion", n, 1)
+}
+
+// helperCallsTo finds the calls of target made inside private helpers that host calls directly
+// (one level): for each, the inner call and its arguments expressed in host's values where they
+// are the helper's parameters.
+type helperCall struct {
+	inner     ssa.CallInstruction
+	effective []ssa.Value
+}
+
+func helperCallsTo(host, target *ssa.Function) []helperCall {
+	var out []helperCall
+	an.InstrsDeep(host, func(_ *ssa.Function, in ssa.Instruction) {
+		outer := an.AsCall(in)
+		if outer == nil {
+			return
+		}
+		h := outer.Common().StaticCallee()
+		if h == nil || h.Blocks == nil || h == target || h == host || h.Pkg != host.Pkg {
+			return
+		}
+		an.InstrsDeep(h, func(_ *ssa.Function, in2 ssa.Instruction) {
+			cl := an.AsCall(in2)
+			if cl == nil || cl.Common().StaticCallee() != target {
+				return
+			}
+			eff := make([]ssa.Value, len(cl.Common().Args))
+			for i, a := range cl.Common().Args {
+				for j, prm := range h.Params {
+					if an.Strip(a) == ssa.Value(prm) && j < len(outer.Common().Args) {
+						eff[i] = outer.Common().Args[j]
+					}
+				}
+			}
+			out = append(out, helperCall{cl, eff})
+		})
+	})
+	return out
 }
